@@ -75,6 +75,20 @@ class StartRequests(Observer):
         return last is not None and (last[0] == 20 or (last[0] == 100 and last[1]))
 
     def on_wire(self, sim, rec):
+        if rec['via'] == 'client' and rec['method'] in ('supvisors.start_application', 'supvisors.restart_application') \
+                and rec.get('outcome') != 'ok' and len(rec.get('args') or ()) >= 2:
+            # a rejected operation has no effect: forget it right after its handler, before anything else the instance
+            # does in the same wake-up (its own plans use the strategy of the rules)
+            try:
+                key = (rec['dst'], rec['args'][1])
+                if key in self.ops and abs(self.ops[key][0] - sim.now_us) < 1000:
+                    prev = self.prev_ops.get(key)
+                    if prev is None:
+                        del self.ops[key]
+                    else:
+                        self.ops[key] = prev
+            except TypeError:
+                pass
         if rec['method'] in ('supvisors.disable', 'supvisors.enable') and rec['via'] == 'client' \
                 and rec.get('outcome') == 'ok' and rec.get('args'):
             self.disability_t[(rec['dst'], str(rec['args'][0]))] = sim.now_us
@@ -646,6 +660,13 @@ class StartRequests(Observer):
             # of the application (RESTART_APPLICATION repair): each plan chooses its instance / node afresh
             plan_t0 = max(t_dist, op[0] if op else -1, self.stops.get((s.nick, s.incarnation, app), -1),
                           self.handler_plans.get((s.nick, s.incarnation, app), -1))
+            if plan_t0 >= 0 and any(r['s'] == s.nick and r['inc'] == s.incarnation and r['app'] == app
+                                    and plan_t0 - 60 * US < r['t_us'] < plan_t0 for r in self.requests):
+                # a new plan (DISTRIBUTION entry, failure handler job, operation) was decided while an earlier plan of the
+                # application was still unfolding: it only begins when the earlier job is over, and the requests of both
+                # follow each other
+                self._probe('distribution_rule_plans_overlap_skipped')
+                return
             key = (s.nick, s.incarnation, app, plan_t0)
             prev = self.single_targets.setdefault(key, [])
             for p_target, p_t in prev:
